@@ -103,6 +103,12 @@ CHECKS = {
         text="TLC checks on all histories of 6-7 operations (cache capacity 1 and 2) that a resumed connection continues an earlier full handshake with the same identity, suite and client-certificate status; every history connect / <=2 changes / connect and hundreds of simulated histories (rotations keeping or dropping old keys, suite list and ClientAuth changes on either side, tickets disabled, tampering per ticket region, cache capacity 1..3, two server names, GMSSL and TLS) run on the real code: each connection must resume exactly when the gate holds, never fail, agree on DidResume, suite and keys on both ends, carry the original master secret and client identity; single-byte ticket changes (every byte in thorough) must fall back to a full handshake.",
         note="Server CipherSuites are always listed explicitly (the statement's positive clause). Trusts the accessors that expose the ticket of a cached client session. Histories beyond 7 operations are not model-checked.",
         ref="DESIGN.md section 5 C16"),
+    "C17": dict(
+        level="model_checking",
+        technique="TLA+ spec Containers (symbolic algebra of PKCS#7 enveloped-data, signed-data and PKCS#12 objects; state machine make -> one adversary change -> use; the clauses of the statement are invariants checked by TLC over every producer choice, adversary change and use); every done state replayed on the real x509 / pkcs12 packages; single-byte corruption sweep with the statement's 'exactly when' as oracle",
+        text="TLC explores 7.9k (thorough 36k) states: envelopes {SM2 in both ciphertext orderings, RSA} x {DES-CBC, AES-128-GCM} x recipient lists over three holders whose certificates share issuers and serial numbers pairwise x content lengths x {untouched, body changed, wrapped key changed, recipient dropped, reordered} x every (certificate holder, key holder, API, ordering) over four holders; signed data {SM2 with both SM3 identifiers, RSA incl. the package's own AddSigner output} x signed attributes x detached x signer x {content, digest attribute, other attribute, signature, re-signed by another key, certificate swapped} x supplied content; PKCS#12 {empty, ASCII, UTF-8, long, BMP-edge, invalid UTF-8 password} x {SM2, RSA key} x 0..2 CA certificates x {untouched, byte changed, MAC stripped} x right + 8 wrong-password variants x {DecodeAll, Decode, ToPEM}. Each case runs on the real packages and must give exactly the content / verified / key and certificates, or an error. Every (quick: every 5th) byte of 8 signed-data objects, 2 GCM envelopes and 4 bundles (with and without macData) is set to 4 values: what still verifies must carry the genuine content, attributes, signature and signer key; what still decrypts or decodes must be the original.",
+        note="Symbolic cryptography in the model. SM2 signers and attribute-less objects are built by the harness's mirror of the ASN.1 structures because the package cannot produce them. DES-CBC content changed in transit is left unspecified (no integrity in the format). Verify does not validate certificate chains, so 'certified key' means the key of the embedded certificate named by issuer and serial.",
+        ref="DESIGN.md section 5 C17"),
     "C18": dict(
         level="fault_enumeration",
         technique="TLA+ spec TLV (total BER/DER tag-length-value reader as a state machine with a step counter; termination within 4*len+4 steps, in-bounds indexing and absence of stuck states checked by TLC for every string up to a length bound over the critical-byte alphabet); TLC extracts the TLV nodes of a library-produced corpus, which generate the structural mutation catalogue; every mutant and every TLC-enumerated short string is run through the real decoders under recover, a deadline and an allocation counter",
